@@ -616,6 +616,7 @@ func TestVerifC49Conn(t *testing.T) {
 			writes = append(writes, w)
 		}
 		fail := func(format string, a ...any) {
+			st.MarkFailed() // rapid re-runs the property while shrinking; stop counting
 			rt.Fatalf("%s\nending=%s itemLimit=%d sizeLimit=%d\n%s", fmt.Sprintf(format, a...), ending, itemLimit, sizeLimit, c49Transcript(frames, writes))
 		}
 		exact := ending != "abrupt"
@@ -915,6 +916,7 @@ func TestVerifC49HTTP(t *testing.T) {
 			writes = append(writes, w)
 		}
 		fail := func(format string, a ...any) {
+			st.MarkFailed() // rapid re-runs the property while shrinking; stop counting
 			rt.Fatalf("%s\ntimeout=%v(set=%v) itemLimit=%d sizeLimit=%d\n%s", fmt.Sprintf(format, a...), timeout, hasTimeout, itemLimit, sizeLimit, c49Transcript(frames, writes))
 		}
 		for wi, w := range writes {
@@ -1070,5 +1072,82 @@ func TestVerifX49FindingBatchTimeoutRace(t *testing.T) {
 	}
 	if lost > 0 {
 		t.Errorf("%d of %d two-call batches were answered with fewer than 2 response objects", lost, rounds)
+	}
+}
+
+// TestVerifC49TimeoutRepeat re-runs a few fixed batches whose timeout fires while a
+// context-aware method is running, many times: the interleaving of the timeout callback
+// with the batch loop cannot be steered, only sampled (DESIGN 2.8 d). Ledger oracle only.
+func TestVerifC49TimeoutRepeat(t *testing.T) {
+	c49Quiet()
+	st := vs.New("C49", t)
+	defer runtime.GOMAXPROCS(runtime.GOMAXPROCS(0))
+	server := newTestServer()
+	defer server.Stop()
+	if err := server.RegisterName("v", c49Service{}); err != nil {
+		t.Fatalf("VERIF-HARNESS-BUG: %v", err)
+	}
+	call := func(id, method, params string) c49Entry {
+		return c49Entry{raw: c49Msg(id, method, params), kind: "call", id: id, label: method}
+	}
+	notif := func(method, params string) c49Entry {
+		return c49Entry{raw: c49Msg("", method, params), kind: "notif", label: "notif:" + method}
+	}
+	shapes := [][]c49Entry{
+		{call(`1`, "v_sleepCtx", `[30000000]`), call(`2`, "test_echo", `["x",1,null]`)},
+		{call(`1`, "test_null", ``), call(`1`, "v_sleepCtx", `[30000000]`), notif("test_echo", `["n",1,null]`), call(`"a"`, "test_echo", `["x",1,null]`), call(`null`, "v_sleepCtx", `[30000000]`)},
+		{call(`7`, "test_block", ``), call(`8`, "v_spin", `[10]`), call(`7`, "test_block", ``)},
+		{notif("v_sleepCtx", `[30000000]`), call(`3`, "v_sleepCtx", `[30000000]`), call(`4`, "test_repeat", `["x",600]`)},
+	}
+	timeouts := []time.Duration{200 * time.Microsecond, time.Millisecond, 2 * time.Millisecond, 0}
+	procs := []int{1, 2, 4, 16}
+	rounds := 4000
+	if vs.Thorough() {
+		rounds = 8000
+	}
+	for i := 0; i < rounds; i++ {
+		c := st.Case()
+		if i%100 == 0 {
+			runtime.GOMAXPROCS(procs[(i/100)%len(procs)])
+		}
+		f := &c49Frame{batch: true, entries: shapes[i%len(shapes)]}
+		f.render()
+		timeout := timeouts[(i/len(shapes))%len(timeouts)]
+		ctx := context.WithValue(context.Background(), http.ServerContextKey, &http.Server{WriteTimeout: timeout + 100*time.Millisecond})
+		req := httptest.NewRequest(http.MethodPost, "/", strings.NewReader(f.raw)).WithContext(ctx)
+		req.Header.Set("content-type", "application/json")
+		rw := &c49RespWriter{hdr: http.Header{}}
+		server.ServeHTTP(rw, req)
+		var writes []c49Write
+		for _, b := range rw.writes {
+			w, err := c49ParseWrite(b)
+			if err != nil {
+				t.Fatalf("round %d: malformed write %q: %v", i, b, err)
+			}
+			writes = append(writes, w)
+		}
+		bad := ""
+		switch {
+		case len(writes) != 1 || !writes[0].array:
+			bad = fmt.Sprintf("expected exactly one batch reply, got %d writes", len(writes))
+		default:
+			if err := c49CheckBatch(f, writes[0].objs, true); err != nil {
+				bad = err.Error()
+			}
+		}
+		if bad != "" {
+			st.MarkFailed()
+			t.Fatalf("round %d (timeout %v, GOMAXPROCS %d): %s\n%s", i, timeout, runtime.GOMAXPROCS(0), bad, c49Transcript([]*c49Frame{f}, writes))
+		}
+		timedOut, answered := 0, 0
+		for _, o := range writes[0].objs {
+			if o.isErr && o.errCode == -32002 {
+				timedOut++
+			} else {
+				answered++
+			}
+		}
+		c.Classf("shape%d timedOut=%d answered=%d", i%len(shapes), timedOut, answered)
+		c.NonTrivial(timedOut > 0, fmt.Sprintf("%d/%v/%d/%d", i%len(shapes), timeout, timedOut, answered))
 	}
 }
